@@ -35,6 +35,14 @@ type c09Case struct {
 	Fid    int     `json:"fid,omitempty"`
 	Xss    [][]F64 `json:"xss,omitempty"`
 	Big    bool    `json:"big,omitempty"` // kind 0: values beyond the usual magnitude window are intended (overflow class)
+	// kind 3: ONE Sample whose backing arrays (Xs and Weights) are overwritten IN PLACE between the steps
+	// (reweighting, new values, both, a shorter length); every Sample query is re-observed after each overwrite
+	Steps []c09Step `json:"steps,omitempty"`
+}
+type c09Step struct {
+	Xs     []F64 `json:"xs"`
+	Ws     []F64 `json:"ws,omitempty"`
+	Sorted bool  `json:"sorted,omitempty"`
 }
 
 func c09Sample(c *c09Case) (*stats.Sample, error) {
@@ -69,6 +77,25 @@ func c09Guard(l *Line, f func() float64) {
 	} else {
 		l.I(0).F(r)
 	}
+}
+
+// c09Observe writes the contents of s and the 19 observations of kind 0 (slice functions on Xs, every Sample
+// method, "unmodified": Xs, Weights, Sorted bit for bit as before the calls)
+func c09Observe(l *Line, s *stats.Sample, sorted, hasw bool) {
+	xs0 := append([]float64{}, s.Xs...)
+	ws0 := append([]float64{}, s.Weights...)
+	l.B(sorted).B(hasw).Fs(s.Xs).Fs(s.Weights)
+	bmin, bmax := stats.Bounds(s.Xs)
+	l.F(stats.Mean(s.Xs)).F(stats.Variance(s.Xs)).F(stats.StdDev(s.Xs)).F(stats.GeoMean(s.Xs)).F(bmin).F(bmax)
+	c09Guard(l, func() float64 { return s.Mean() })
+	c09Guard(l, func() float64 { return s.Variance() })
+	c09Guard(l, func() float64 { return s.StdDev() })
+	c09Guard(l, func() float64 { return s.GeoMean() })
+	l.F(s.Sum()).F(s.Weight())
+	smin, smax := s.Bounds()
+	l.F(smin).F(smax)
+	unmod := bitsEqual(s.Xs, xs0) && s.Sorted == sorted && bitsEqual(s.Weights, ws0) && (s.Weights != nil) == hasw
+	l.B(unmod)
 }
 
 func c09Dump(l *Line, ss []*stats.Sample) {
@@ -110,20 +137,7 @@ func c09Run(raw []byte) (*Line, error) {
 				return nil, fmt.Errorf("value outside the generated magnitude window")
 			}
 		}
-		xs0 := append([]float64{}, s.Xs...)
-		ws0 := append([]float64{}, s.Weights...)
-		l.B(c.Sorted).B(c.HasW).Fs(s.Xs).Fs(s.Weights)
-		bmin, bmax := stats.Bounds(s.Xs)
-		l.F(stats.Mean(s.Xs)).F(stats.Variance(s.Xs)).F(stats.StdDev(s.Xs)).F(stats.GeoMean(s.Xs)).F(bmin).F(bmax)
-		c09Guard(l, func() float64 { return s.Mean() })
-		c09Guard(l, func() float64 { return s.Variance() })
-		c09Guard(l, func() float64 { return s.StdDev() })
-		c09Guard(l, func() float64 { return s.GeoMean() })
-		l.F(s.Sum()).F(s.Weight())
-		smin, smax := s.Bounds()
-		l.F(smin).F(smax)
-		unmod := bitsEqual(s.Xs, xs0) && s.Sorted == c.Sorted && bitsEqual(s.Weights, ws0) && (s.Weights != nil) == c.HasW
-		l.B(unmod)
+		c09Observe(l, s, c.Sorted, c.HasW)
 	case 1:
 		s, err := c09Sample(&c)
 		if err != nil {
@@ -170,6 +184,45 @@ func c09Run(raw []byte) (*Line, error) {
 			default:
 				return nil, fmt.Errorf("bad op")
 			}
+		}
+	case 3:
+		if len(c.Steps) == 0 || len(c.Steps) > 64 {
+			return nil, fmt.Errorf("bad number of steps")
+		}
+		n0 := len(c.Steps[0].Xs)
+		if n0 > 4096 {
+			return nil, fmt.Errorf("too long")
+		}
+		xbuf := make([]float64, n0)
+		var wbuf []float64
+		if c.HasW {
+			wbuf = make([]float64, n0)
+		}
+		s := &stats.Sample{}
+		l.I(len(c.Steps))
+		for _, st := range c.Steps {
+			// validate the step as a Sample (same rules as kind 0), then write it INTO the same storage
+			sc := c09Case{Xs: st.Xs, Ws: st.Ws, HasW: c.HasW, Sorted: st.Sorted}
+			t, err := c09Sample(&sc)
+			if err != nil {
+				return nil, err
+			}
+			if len(t.Xs) > n0 {
+				return nil, fmt.Errorf("a step longer than the backing array")
+			}
+			for _, x := range t.Xs {
+				if x != 0 && (math.Abs(x) > 1e12 || math.Abs(x) < 1e-12) {
+					return nil, fmt.Errorf("value outside the generated magnitude window")
+				}
+			}
+			s.Xs = xbuf[:len(t.Xs)]
+			copy(s.Xs, t.Xs)
+			if c.HasW {
+				s.Weights = wbuf[:len(t.Xs)]
+				copy(s.Weights, t.Weights)
+			}
+			s.Sorted = st.Sorted
+			c09Observe(l, s, st.Sorted, c.HasW)
 		}
 	case 2:
 		l.I(c.Sub)
@@ -653,6 +706,113 @@ func c09Gen(tier string, rng *rand.Rand, emit func(interface{})) {
 		}
 		for i := 0; i < ns; i++ {
 			c.Ops = append(c.Ops, c09Op{T: 3, I: i})
+		}
+		emit(c)
+	}
+	// (e') IN-PLACE steps: one Sample, its Xs / Weights arrays overwritten in place between the steps (reweighting,
+	// one weight changed, weights scaled, all weights zero, new values, values and weights, permuted pairs, a shorter
+	// prefix), every Sample query re-observed after each overwrite: a result remembered per storage identity
+	// (&Weights[0], len) or (&Xs[0], len) would be stale
+	nI := 60
+	if thorough {
+		nI = 1000
+	}
+	for it := 0; it < nI; it++ {
+		n := 1 + rng.Intn(10)
+		hasw := it%5 != 0
+		newXs := func(m int) []float64 {
+			xs := make([]float64, m)
+			for i := range xs {
+				switch it % 3 {
+				case 0:
+					xs[i] = float64(1+rng.Intn(64)) / 4 // positive: GeoMean has a value
+				case 1:
+					xs[i] = float64(rng.Intn(41)-20) / 2
+				default:
+					xs[i] = float64(rng.Intn(2001)-1000) / 8
+				}
+			}
+			return xs
+		}
+		xs := newXs(n)
+		var ws []float64
+		if hasw {
+			ws = c09IntWeights(rng, n, 3, true)
+		}
+		c := c09Case{Kind: 3, HasW: hasw}
+		push := func(xs, ws []float64) {
+			st := c09Step{Xs: toF64s(xs)}
+			if hasw {
+				st.Ws = toF64s(ws)
+			}
+			if len(xs) > 1 && sort.Float64sAreSorted(xs) && rng.Intn(2) == 0 {
+				st.Sorted = true
+			}
+			c.Steps = append(c.Steps, st)
+		}
+		push(xs, ws)
+		nst := 2 + rng.Intn(4)
+		for k := 0; k < nst; k++ {
+			xs = append([]float64{}, xs...)
+			ws = append([]float64{}, ws...)
+			op := rng.Intn(8)
+			if !hasw && op < 4 {
+				op = 4
+			}
+			switch op {
+			case 0: // reweight: a fresh weight vector, same values
+				ws = c09IntWeights(rng, len(xs), 4, true)
+			case 1: // one weight changed
+				ws[rng.Intn(len(ws))] = float64(rng.Intn(5))
+			case 2: // weights scaled / shifted (dyadic)
+				f := []float64{2, 0.5, 3, 0.25}[rng.Intn(4)]
+				for i := range ws {
+					ws[i] = ws[i]*f + float64(rng.Intn(2))
+				}
+			case 3: // every weight zero (Mean, GeoMean NaN), or every weight one
+				z := float64(rng.Intn(2))
+				for i := range ws {
+					ws[i] = z
+				}
+			case 4: // new values, same weights
+				xs = newXs(len(xs))
+			case 5: // new values and new weights
+				xs = newXs(len(xs))
+				if hasw {
+					ws = c09IntWeights(rng, len(xs), 3, true)
+				}
+			case 6: // the same pairs in another order
+				rng.Shuffle(len(xs), func(i, j int) {
+					xs[i], xs[j] = xs[j], xs[i]
+					if hasw {
+						ws[i], ws[j] = ws[j], ws[i]
+					}
+				})
+			default: // a shorter prefix of the same storage, then back
+				if len(xs) > 1 {
+					m := 1 + rng.Intn(len(xs)-1)
+					xs = xs[:m]
+					if hasw {
+						ws = ws[:m]
+					}
+				} else {
+					xs = newXs(n)
+					if hasw {
+						ws = c09IntWeights(rng, n, 3, true)
+					}
+				}
+			}
+			if rng.Intn(6) == 0 {
+				var w0 []float64
+				if hasw {
+					w0 = ws
+				}
+				xs, w0 = c09SortedPairs(xs, w0)
+				if hasw {
+					ws = w0
+				}
+			}
+			push(xs, ws)
 		}
 		emit(c)
 	}
